@@ -4,13 +4,17 @@ from evalutil import *
 
 ID = "C13"
 LEVEL = "proof"
-MODULES = ["H3Proofs.Props.C13", "H3Proofs.Props.C13Bij", "H3Proofs.Props.C04Valid", "H3Proofs.Props.C13Refine", "H3Proofs.Props.C04Gen", "H3Proofs.Props.C13Gen"]
+MODULES = ["H3Proofs.Props.C13", "H3Proofs.Props.C13Bij", "H3Proofs.Props.C04Valid", "H3Proofs.Props.C13Refine", "H3Proofs.Props.C04Gen", "H3Proofs.Props.C13Gen", "H3Proofs.Props.C13PosShape", "H3Proofs.Props.C13Pos"]
 THEOREMS = "auto"
 ASSUMPTIONS = ["hand-written loop-faithful model of cellToChildPos/childPosToCell/validateChildPos/_ipow tied to the code "
                "by the correspondence check; the specification-level model the bijection theorems are about is PROVED equal "
                "to the loop-faithful one for all inputs (C13Refine: childPosToCell_eq, cellToChildPos_eq)"]
 ASSUMPTIONS.append('cellToParent, cellToChildrenSize, isPentagon and _ipow(7, 0..15), which cellToChildPos / childPosToCell / validateChildPos are built from, are translated from the C text on every run and proved equal to the model functions (C04Gen)')
-NOT_PROVED = []
+ASSUMPTIONS.append("cellToChildPos itself - both loops, the cellToParent / isPentagon calls inside the pentagon loop, the error returns and the final validateChildPos - is translated from the C text on every run (16 unrollings, break / partial returns as duplicated continuations) and PROVED to return the model's error code and, on success, the model's position, for all 2^64 cells, all 2^32 parent resolutions and every value of its uninitialised locals (C13PosShape: code_shape / out_shape by bv_decide; C13Pos: loopH, loopP, cellToChildPos_eq_model)")
+NOT_PROVED = ["that the NEVER(validateChildPos(...)) assertion at the end of cellToChildPos cannot fire (a `_defined` theorem for the "
+              "translated cellToChildPos): the model returns E_FAILED there and the bijection theorems show the position is in range "
+              "(C13Bij.childPos_lt_size), but the definedness companion of the 640-line translation is not analysed",
+              "childPosToCell is tied to the code by correspondence only (its translation is 4.4k lines per result: not registered)"]
 EXPLANATION = ("position <-> child theorems about the model + correspondence; the evaluator compares the real "
                "functions with an independent python rank/unrank over the digit tree at every depth 0..15")
 
@@ -101,6 +105,14 @@ def streams(rng, tier):
         q = (pos, -1, size, size - 1, 0, -2 ** 63, 2 ** 63 - 1)[i_ % 7]
         r_ = cres if i_ % 5 else rng.choice(gen.EXTREME_INTS + [0, 15, 16])
         ops2.append(f"genfn4 {q} {gen.hx(p)} {r_} {ks[i_ % len(ks)]} {gen.hx(rng.getrandbits(64))}")
+    # the c2lean translation of cellToChildPos against the compiled function: valid children at every depth, error
+    # arguments, malformed cells (the value left in *out is compared too)
+    for i_, (p, cres, pos) in enumerate(tr[:1200]):
+        ch = unrank(pos, p, cres)
+        r_ = (p >> 52) & 15 if i_ % 6 else rng.choice(gen.EXTREME_INTS + [0, 15, 16])
+        ops2.append(f"genfn5 {gen.hx(ch)} {r_} {gen.hx(rng.getrandbits(64))} {gen.hx(rng.getrandbits(64))} {gen.hx(rng.getrandbits(64))}")
+    for _ in range(400):
+        ops2.append(f"genfn5 {gen.hx(gen.malformed(rng))} {rng.randrange(-1, 17)} {gen.hx(rng.getrandbits(64))} 0 0")
     for _ in range(1500):
         h = gen.malformed(rng)
         ops2.append(f"cpos {gen.hx(h)} {rng.randrange(-1, 17)}")
